@@ -179,7 +179,12 @@ func RunBatch(property string, p Profile, verifSeed uint64, from, to int, mandat
 				out.TargetCount++
 				if len(out.Violations) < 4 {
 					acts := r.Trace
-					if (v.Oracle == "lv.converged" || v.Oracle == "lv.follower_catchup") && r.HealAt >= 0 {
+					// A violation found after the chaos phase (in the heal or close
+					// phase, or by the final history checks) is replayed by running
+					// that deterministic procedure again from the phase marker: the
+					// procedure does more than execute actions (truthful snapshot
+					// reports, periodic application snapshots, drained queues).
+					if r.HealAt >= 0 && r.HealAt < len(r.Trace) {
 						acts = append([]Action(nil), r.Trace[:r.HealAt+1]...)
 					}
 					out.Violations = append(out.Violations, ViolRec{RunIndex: i, RunSeed: r.RunSeed, Profile: p.Name, Config: r.Config, Actions: acts, Violation: v, Digest: r.Digest})
